@@ -268,7 +268,7 @@ func buildC08(e *engine, p *rt.Package) {
 						r, err := drv.Call(map[string]any{"op": "ts_client_call", "module": clientMod, "service": svc.Name, "method": m.Name, "baseURL": base,
 							"request": tsReq, "clientOptions": clientOpts, "callOptions": callOpts})
 						if err != nil {
-							panic(err)
+							panic(infraError(fmt.Sprint(err)))
 						}
 						if !r.OK() {
 							t.Fatalf("%s: the TypeScript client could not be invoked: %s", desc, short(r.Err(), 400))
@@ -292,14 +292,14 @@ func buildC08(e *engine, p *rt.Package) {
 					tsServerExpect := func() {
 						r, err := drv.Call(map[string]any{"op": "ts_server_respond", "sid": p.ID, "service": svc.Name, "method": m.Name, "response": respTree})
 						if err != nil || !r.OK() {
-							panic(fmt.Sprint(err, r))
+							panic(infraError(fmt.Sprint(fmt.Sprint(err, r))))
 						}
 						_, _ = drv.Call(map[string]any{"op": "ts_server_calls", "sid": p.ID})
 					}
 					checkTSServerSaw := func() {
 						r, err := drv.Call(map[string]any{"op": "ts_server_calls", "sid": p.ID})
 						if err != nil || !r.OK() {
-							panic(fmt.Sprint(err, r))
+							panic(infraError(fmt.Sprint(fmt.Sprint(err, r))))
 						}
 						calls, _ := r["calls"].([]any)
 						if len(calls) != 1 {
